@@ -46,6 +46,26 @@ class PatchVariant(Variant):
         return []
 
 
+MECH_TRANSFORMS = ('unparse', 'rename', 'swapeq', 'flipif', 'logging', 'yieldfrom', 'fstring', 'elsereturn', 'ifexp', 'augexpand',
+                   'tmpvar', 'all')
+
+
+class MechVariant(Variant):
+    """A mechanical, behaviour-preserving transformation of every module (tools/mech_refactor.py), generated from the
+    current tree on every run."""
+
+    def __init__(self, prop, transform):
+        Variant.__init__(self, prop, 'silent: mechanical %s' % transform, None, None, None, expect='silent')
+        self.transform = transform
+
+    def edits(self):
+        return []
+
+
+def mech_variants() -> List['Variant']:
+    return [MechVariant('C%02d' % i, t) for t in MECH_TRANSFORMS for i in range(1, 21)]
+
+
 def stored_patch_variants() -> List['Variant']:
     out: List[Variant] = []
     sd = os.path.join(VERIF, 'seeded')
@@ -67,7 +87,7 @@ def stored_patch_variants() -> List['Variant']:
 
 def load_variants() -> List[Variant]:
     from . import selftest_variants
-    return list(selftest_variants.VARIANTS) + stored_patch_variants()
+    return list(selftest_variants.VARIANTS) + stored_patch_variants() + mech_variants()
 
 
 def run_variant(v: Variant, keep=False) -> dict:
@@ -84,7 +104,13 @@ def run_variant(v: Variant, keep=False) -> dict:
         texts[fn] = texts[fn].replace(old, new)
     tmp = tempfile.mkdtemp(prefix='pndst_')
     try:
-        shutil.copytree(src, os.path.join(tmp, PKG))
+        if getattr(v, 'transform', None):
+            pr = subprocess.run([sys.executable, os.path.join(VERIF, 'tools', 'mech_refactor.py'), v.transform, tmp],
+                                env=dict(os.environ, MECH_SRC=repo_root()), capture_output=True, text=True)
+            if pr.returncode != 0:
+                return {'variant': v.name, 'property': v.prop, 'status': 'skipped', 'why': 'transformation failed: %s' % pr.stderr[-200:]}
+        else:
+            shutil.copytree(src, os.path.join(tmp, PKG))
         if getattr(v, 'patch', None):
             pr = subprocess.run(['patch', '-p1', '-s', '--no-backup-if-mismatch', '-i', v.patch], cwd=tmp, capture_output=True, text=True)
             if pr.returncode != 0:
